@@ -24,11 +24,11 @@ RULE = ("a case = a sequence (history) of calls Q(n,k) / QQ(n,k) / number_of_con
         "substrate, EVERY k; the "
         "equations on exact polynomial arguments (distinct variables per neighbour, repeated variables, constants), "
         "compared coefficient by coefficient with the model polynomial and judged by the verified checker against the "
-        "exact bond-percolation expectation; THROUGH MessagePassing (2 cases in the corpus, 12 quick / 38 thorough): the K_tau "
+        "exact bond-percolation expectation; THROUGH MessagePassing (2 cases in the corpus, 13 quick / 39 thorough): the K_tau "
         "(tau 2..5, every focal vertex, heterogeneous messages) and C_n (n 3..9, one message for all neighbours) motif of an "
         "edge-disjoint covered network evaluated by MessagePassing.resolve_equation(focal, cover label, messages) on ONE "
         "object per network (iterations=0, theoretical(phi) installs phi), cover labels '<key>-[vertices]-[edges]-<uid>' with "
-        "the integer key chosen per topology in five ways (clique size, EDGE COUNT, index from 1 / from 0, arbitrary), literals "
+        "the integer key chosen per topology in six ways (clique size, EDGE COUNT, index from 1 / from 0, arbitrary, VERTEX COUNT also for cycles), literals "
         "spelled as list / tuple / without spaces / edges as lists, uids overlapping or disjoint from the vertex labels (up to "
         "70000), other motifs of the cover touching the motif (pendant edges, triangles, for cycles their CHORDS covered as "
         "separate 2-cliques), judged by the same checker against the closed form of the motif written in the label; "
@@ -414,7 +414,7 @@ def _structured_case(rng, emax=14, blocks=None, joint=None, embed=None):
 # and are judged by the same verified checker as clique_equation / chordless_cycle_equation (closed form of the motif of
 # the label).  opts = {"m": motif, "others": other motifs of the cover (pendant edges, motifs glued at a vertex, for
 # cycles the CHORDS covered as separate 2-cliques), "focal": vertex, "fmt": spelling of the literals}.
-MP_KEYMODES = ["size", "edges", "index", "index0", "big"]
+MP_KEYMODES = ["size", "edges", "index", "index0", "big", "verts"]
 MP_FMTS = ["list", "tight", "tuple", "mixed"]
 MP_LABELS = list(range(0, 16)) + [17, 31, 32, 33, 63, 64, 65, 100, 255, 256, 257, 300, 1000, 70000]
 
@@ -428,6 +428,8 @@ def _mp_key(mode, n, e, i):
         return i + 1
     if mode == "index0":
         return i
+    if mode == "verts":
+        return n            # the vertex count, also for a chordless cycle (a 4-cycle keyed 4 is not a K4)
     return 1000 + 37 * i
 
 
